@@ -33,7 +33,11 @@ def main():
             out = {}
             for q in [pid] + props:
                 t0 = time.time()
+                ev = os.path.join(ROOT, "evidence", q + ".json")
+                keep = open(ev).read() if os.path.exists(ev) else None       # evidence on disk stays that of the unchanged tree
                 c = sh("cd %s && VERIF_REPO=%s ./check %s --tier quick" % (ROOT, repo, q))
+                if keep is not None:
+                    open(ev, "w").write(keep)
                 line = [l for l in c.stdout.splitlines() if l.startswith(("VIOLATION", "OK", "HARNESS", "KNOWN"))]
                 out[q] = (c.returncode, line[-1] if line else c.stdout[-300:], round(time.time() - t0, 1))
             res[sid] = out
